@@ -23,3 +23,5 @@ def run(ctx):
     ctx.guard(k19_match, ctx, "C02")
     from ..rules_misc import k21_match_overrides
     ctx.guard(k21_match_overrides, ctx, "C02")
+    from ..rules_misc import text_consumers_rule
+    ctx.guard(text_consumers_rule, ctx, "C02.text-consumers")
